@@ -241,10 +241,10 @@ def run(chk):
         r2.require(not bad, f"{p.key}|unaggregated-pass-through", p.where(),
                    f"{p.qualname}: without aggregation the frame returned by _predict must be handed out unchanged (interpreted for aggregation in None/'none'); found {list(bad.items())[:1]}")
     dp = method(chk, dm, "predict")
-    rts = [s for s in walk_no_nested(dp.node) if isinstance(s, ast.Return)]
-    rd2 = ReachingDefs(dp.node)
-    ok = all(isinstance(r.value, ast.Name) and [unparse(rd2.value_of(d)) for d in rd2.reaching(r, r.value.id)] == ["self._predict(df)"] for r in rts) and rts
-    r2.require(ok, f"{dp.key}|returns-_predict(df)", dp.where(), "DailyModel.predict must return self._predict(df) unchanged")
+    from rules.billing_agg import interpret_plain_predict
+    outs_p = [interpret_plain_predict(chk, dp, {"DailyModel", dm.name}, wo) for wo in (True, False)]
+    ok = all(o.get("returns") == "frame" and o["frame"] == {"frame": "predict", "ops": []} and o.get("predict_calls") == 1 for o in outs_p)
+    r2.require(ok, f"{dp.key}|returns-_predict(df)", dp.where(), f"DailyModel.predict must return the frame self._predict gives for the data object's frame, unchanged; interpreted: {outs_p[:1]}")
 
     # ------------------------------------------------------------------ R06.3
     from rules.hourlyframe import check_contiguous_index
